@@ -755,7 +755,69 @@ def check_C20(chk):
                         'leap second spellings (:60), offsets beyond +-23:59 and lenient ISO forms (lower case, space, basic format) are left open']
 
 
-CHECKS = {'C20': check_C20, 'C07': check_C07, 'C13': check_C13, 'C12': check_C12, 'C17': check_C17, 'C18': check_C18, 'C15': check_C15, 'C09': check_C09, 'C08': check_C08, 'C11': check_C11, 'C10': check_C10, 'C01': check_C01, 'C02': check_C02, 'C03': check_C03}
+def check_C16(chk):
+    import modules, shutil, concurrent.futures as cf
+    q = chk.tier == 'quick'
+    chk.rule = ('TLC runs the loader state machine of JaqModules (Resolve -> ReadErr / Reuse / Cycle / Enter, Exit; invariants: no module twice, open is a stack, each file entered at most once, '
+                'identifiers in completion order, a cycle is an error, termination) on every case of five suites and computes, for every probe (a main filter), the outcome of the single '
+                'program obtained by inlining (definitions renamed apart, every call / variable resolved by the manual`s rules) under JaqSem. graph: all DAGs over main + modules a, b (quick) '
+                '/ a, b, c (thorough), every edge absent / include / import, both directive orders, name clashes between modules, with main and with the standard library, shadowing inside a '
+                'module, data imports of the same name in different modules, two data imports in one module, global variables, calls under binders with variable and filter arguments; 27-32 '
+                'probes per graph. cyclic: the same with back edges and self loops. leak: a module using a definition / variable of its loader or of the call site. search: one module in '
+                'every subset of <= 2 (quick) / all subsets (thorough) of nine directories x four `search` settings x three -L settings x inline / -f main. ext: extensions, sub-directories, '
+                '`..`, absolute paths, default library paths, data files, a nested module with relative search paths. Every case is laid out as real directories and files and run through '
+                'the real jaq (built with the loader hook): output, exit status and the loader`s steps must be the specified ones.')
+    jaq = vlib.build_jaq_hooked()
+    invs = 'NoDuplicates OpenIsStack EnteredOnce CompletionOrder CycleIsError Terminates'
+    suites = [('leak', 1), ('ext', 1), ('graph', 1 if q else 2), ('cyclic', 1), ('search', 1 if q else 2)]
+    base = os.path.join(W, 'modtree')
+    shutil.rmtree(base, ignore_errors=True)
+    total = {'cases': 0, 'probes': 0, 'outcomes': {}}
+    for suite, size in suites:
+        res = vlib.run_tlc('MC_Modules', f'SPECIFICATION Spec\nCONSTANTS\n  Suite = "{suite}"\n  Size = {size}\nINVARIANTS {invs}\nCHECK_DEADLOCK FALSE\n',
+                           f'C16-{suite}', workers=12, timeout=7200)
+        chk.add_tlc(res)
+        for inv in res['invariant_violated']:
+            chk.violation(f'spec:{suite}:{inv}', f'TLC: invariant {inv} of JaqModules violated in suite {suite} (see {res["out"]})', {'tlc_out': res['out']})
+        if not res['completed']:
+            raise ToolError(f'TLC did not complete on MC_Modules/{suite}: {res["out"]}')
+        cases = [json.loads(l) for l in vlib.tagged_lines(res['out'], 'VEC')]
+        if not cases:
+            raise ToolError(f'no cases from MC_Modules/{suite}')
+
+        def one(ic):
+            i, c = ic
+            root = os.path.join(base, f'{suite}-{i}')
+            try:
+                return modules.check_case(c, root, jaq)
+            finally:
+                shutil.rmtree(root, ignore_errors=True)
+        with cf.ThreadPoolExecutor(max_workers=12) as ex:
+            for (i, c), bad in zip(enumerate(cases), ex.map(one, enumerate(cases))):
+                total['cases'] += 1
+                total['probes'] += len(c['probes'])
+                chk.evaluations += len(c['probes'])
+                chk.traces += 1
+                for pr in c['probes']:
+                    total['outcomes'][pr['out']['k']] = total['outcomes'].get(pr['out']['k'], 0) + 1
+                    chk.nontrivial.add(hash(json.dumps(pr, sort_keys=True)) ^ i)
+                if i % 211 == 5:
+                    chk.sample({'suite': suite, 'main': c['main'], 'loader_steps': c['ev'], 'probe': c['probes'][0]})
+                for b in bad:
+                    run = b['run']
+                    files = sorted('/'.join(f) for f in c['files'])
+                    chk.violation(f"{suite}:{run['text'][:300]}:{[modules.sp_text(x) for x in c['L']]}:{'-f' if c['main'].get('file') else 'inline'}:{files}"[:700],
+                                  f"jaq {' '.join(run['args'])[-300:]!r} with files {files}: {b['what'][:400]}",
+                                  {'case': c, 'run': run, 'what': b['what']})
+        chk.extra.setdefault('suites', {})[suite] = {'cases': len(cases), 'tlc_states': res['distinct']}
+    chk.extra['totals'] = total
+    chk.assumptions += ['every directory named by a search path exists (the driver creates them), so lexical and physical resolution of `..` coincide; no symbolic links',
+                        'module bodies are drawn from a small term language (strings, calls, qualified calls, variables, arrays, `as`); the text printer of the driver is trusted',
+                        'the order library paths / `search` paths follows the property (and the code): `search` first; the manual lists them the other way round',
+                        'duplicate names among --arg / --argjson and $__prog_args / $ENV are not modelled']
+
+
+CHECKS = {'C16': check_C16, 'C20': check_C20, 'C07': check_C07, 'C13': check_C13, 'C12': check_C12, 'C17': check_C17, 'C18': check_C18, 'C15': check_C15, 'C09': check_C09, 'C08': check_C08, 'C11': check_C11, 'C10': check_C10, 'C01': check_C01, 'C02': check_C02, 'C03': check_C03}
 
 
 def main():
